@@ -14,6 +14,12 @@ def step (op : String) (args : List String) : Option String :=
     if n = 0 ∨ n > 8 then none else
     let o := assign n (← bool? f) (← bool? m)
     pure s!"ret={o.returned} err={boolStr o.err} cloud+={o.added}"
+  | "exhaust", [n] => do
+    let n ← n.toNat?
+    if n = 0 ∨ n > 3 then none else
+    let (t1, t2) := exhaustTwice n
+    let render (l : List Nat) : String := if l.isEmpty then "-" else ",".intercalate (l.map toString)
+    pure s!"{render t1} {render t2}"
   | "attached", [tr, er, tg, pref, tys] => do
     let tys ← (tys.splitOn ",").mapM fun t => match t with
       | "S" => some Ty.secondary | "T" => some Ty.trunk | "R" => some Ty.rdma | _ => none
